@@ -3,6 +3,7 @@ package main
 import (
 	"encoding/json"
 	"fmt"
+	"math"
 	"time"
 
 	"github.com/gobuffalo/plush/v5"
@@ -24,6 +25,7 @@ type pK struct {
 	Inner    pI
 	InnerPtr *pI
 	NilInner *pI
+	M        map[string]pK
 	secret   string
 	path     string
 }
@@ -65,11 +67,12 @@ func mkK(p string) pK {
 	k := mkKEnd(p)
 	sub := mkKEnd(p + ".Sub")
 	k.Sub = &sub
+	k.M = map[string]pK{"b": mkKEnd(p + ".M[b]")}
 	return k
 }
 
 func mkKEnd(p string) pK {
-	return pK{Name: p + ".Name", Tags: []string{p + ".Tags[0]", p + ".Tags[1]"}, Inner: pI{p + ".Inner.Name"}, InnerPtr: &pI{p + ".InnerPtr.Name"}, secret: "hidden", path: p}
+	return pK{Name: p + ".Name", Tags: []string{p + ".Tags[0]", p + ".Tags[1]"}, Inner: pI{p + ".Inner.Name"}, InnerPtr: &pI{p + ".InnerPtr.Name"}, M: map[string]pK{}, secret: "hidden", path: p}
 }
 
 func mkR(p string) pR {
@@ -116,6 +119,7 @@ func c11Context() *plush.Context {
 	ctx.Set("i0", 0)
 	ctx.Set("i1", 1)
 	ctx.Set("i9", 9)
+	ctx.Set("imax", math.MaxInt)
 	ctx.Set("ka", "a")
 	ctx.Set("kz", "zz")
 	return ctx
